@@ -190,6 +190,8 @@ def run_real(sc):
     setup, score = MATCHING_EXHAUSTIVE_REGISTER[sc["score"]]
     cbc = {"max": MaxScoreOverRotations, "peak": PeakCallerMaximumFilter, "none": None}[sc["analyzer"]]
     cba = {"max": {"score_threshold": 0.0}, "peak": {"number_of_peaks": 5, "min_distance": 2}, "none": {}}[sc["analyzer"]]
+    if sc["analyzer"] == "max" and sc.get("memmap"):
+        cba = dict(cba, use_memmap=True)        # the low-memory mode of the score-map analyzer (match_template.py --use_memmap)
     splits = {int(k): int(v) for k, v in sc["splits"].items()}
 
     def call():
@@ -283,7 +285,7 @@ def _same_result(a, b):
 def reference(sc):
     """fault-free, sequential run of the same search (same data, splits, rotations, analyzer)"""
     key = json.dumps([sc[k] for k in ("mode", "score", "analyzer", "dim", "n", "m", "dseed", "nrot")] +
-                     [sorted(sc["splits"].items()), sc.get("pad_edges", True), sc.get("pad_fourier", True)])
+                     [sorted(sc["splits"].items()), sc.get("pad_edges", True), sc.get("pad_fourier", True), bool(sc.get("memmap"))])
     if key not in _REF:
         r = dict(sc, faults=[], delays=[], sched=[1, 1], ambient=False)
         _REF[key] = run_real(r)
@@ -441,7 +443,7 @@ def _base(rng, parallel=False):
     return {"mode": mode, "score": str(rng.choice(SCORES)), "analyzer": str(rng.choice(ANALYZERS, p=[0.6, 0.25, 0.15])),
             "dim": dim, "n": n, "m": m, "dseed": int(rng.integers(0, 1000)), "nrot": int(rng.integers(1, 6)),
             "splits": splits, "sched": [1, 1], "faults": [], "delays": [], "exc": str(rng.choice(EXCS)),
-            "pad_edges": bool(rng.random() < 0.7), "pad_fourier": bool(rng.random() < 0.7)}
+            "pad_edges": bool(rng.random() < 0.7), "pad_fourier": bool(rng.random() < 0.7), "memmap": bool(rng.random() < 0.3)}
 
 
 def _points(ctx, sc):
